@@ -44,9 +44,19 @@ class KernelCall:
 
     def last(self, k, j, i, upto=None):
         """ghost: the last cell n < upto whose test succeeds at pixel (k,j,i), or -1"""
+        full = upto is None
         upto = self.ncells if upto is None else upto
         t = LAST(core.term(SV.lift(upto)), core.term(SV.lift(k)), core.term(SV.lift(j)), core.term(SV.lift(i)))
-        return SV(t, "i")
+        h = SV(t, "i")
+        if full:
+            p = core.cur()
+            key = ("lastax", core.tid(t))
+            if key not in p.counter:
+                p.counter[key] = 1
+                p.add(z3.And(t >= -1, t < core.term(SV.lift(self.ncells))))
+                # what "last containing cell" means, instantiated at this pixel
+                p.add(z3.Implies(t >= 0, core.bterm(self.contains(h, k, j, i))))
+        return h
 
 
 @summary("evaluate_on_grid@map", MAP + ":evaluate_on_grid")
@@ -62,16 +72,10 @@ def _kernel_summary(real):
         def el(idx):
             l, k, j, i = idx
             h = kc.last(k, j, i)
-            p = core.cur()
-            key = ("lastax", core.tid(h.t))
-            if key not in p.counter:
-                p.counter[key] = 1
-                p.add(z3.And(h.t >= -1, h.t < core.term(SV.lift(kc.ncells))))
-                # what "last containing cell" means, instantiated at this pixel
-                p.add(z3.Implies(h.t >= 0, core.bterm(kc.contains(h, k, j, i))))
             return snp.MaybeNaN(h < 0, SV.lift(vals((l, h))))
 
-        return snp.ndarray.from_elem(el, (nl, kc.nz, kc.ny, kc.nx), "float64")
+        kc.out = snp.ndarray.from_elem(el, (nl, kc.nz, kc.ny, kc.nx), "float64")
+        return kc.out
 
     return evaluate_on_grid
 
